@@ -323,6 +323,22 @@ func pgClassShort(c string) string {
 	return "other"
 }
 
+// markLostAck notes that the acknowledgement of the group ev was lost. With
+// per-task pools the owner names the pair; with the shared pool the pair is
+// not known from the connection, so every call in flight is marked (exactly
+// one of them sent the group).
+func (w *World) markLostAck(owner string) {
+	if ps := w.pairByOwner(owner); ps != nil {
+		ps.callLostAck = true
+		return
+	}
+	for _, ps := range w.pairs {
+		if ps.inCall {
+			ps.callLostAck = true
+		}
+	}
+}
+
 func (w *World) pairByOwner(owner string) *pairState {
 	k := ownerPairKey(owner)
 	for _, ps := range w.pairs {
@@ -408,6 +424,7 @@ func (w *World) serveHTTP(ev *httpEvent) httpResult {
 			}
 		}
 	}
+	n.Now = w.step
 	replies := n.Serve(ev.host, ev.reqs, between)
 	switch kind {
 	case hfRPCError:
@@ -590,9 +607,7 @@ func (w *World) decidePG(ev *fakepg.Event) pgDecision {
 			d.v = fakepg.DropAfter
 			if strings.Contains(ev.Class, "commit") {
 				w.stat("probe_lost_commit_ack", 1)
-				if ps := w.pairByOwner(ev.Owner); ps != nil {
-					ps.callLostAck = true
-				}
+				w.markLostAck(ev.Owner)
 			}
 		case "crash-before":
 			d.crash = 1
@@ -600,9 +615,7 @@ func (w *World) decidePG(ev *fakepg.Event) pgDecision {
 		case "crash-after":
 			d.crash = 2
 			d.v = fakepg.DropAfter
-			if ps := w.pairByOwner(ev.Owner); ps != nil {
-				ps.callLostAck = true
-			}
+			w.markLostAck(ev.Owner)
 		}
 		return d
 	}
@@ -624,9 +637,7 @@ func (w *World) decidePG(ev *fakepg.Event) pgDecision {
 			w.stat("fault_pg_drop_after", 1)
 			if strings.Contains(ev.Class, "commit") {
 				w.stat("probe_lost_commit_ack", 1)
-				if ps := w.pairByOwner(ev.Owner); ps != nil {
-					ps.callLostAck = true
-				}
+				w.markLostAck(ev.Owner)
 			}
 		}
 		w.stat("fault_total", 1)
